@@ -2703,3 +2703,29 @@ for _q, _what in (("q1", "bound mutator taken as a value and called later"), ("q
                   ("q11", "getattr with a constant name"), ("q12", "vars(obj)[...]"), ("q16", "random.shuffle / np.random.shuffle of an alias"),
                   ("q17", "obj.__dict__.update(...)")):
     VARIANTS.append(dict(prop="C14", id=f"around/alias-{_q}", kind="M", rule="R-C14-1", patch=_os.path.join(_HP, f"alias-{_q}.diff"), note=_what))
+
+# =============================================================================================
+# round 11
+# =============================================================================================
+M("C16", "r11/shuffle-init-replaces-reference-by-ground-truth-copy", SAM,
+  """        super().init_sampling(reference_continuum, ground_truth_annotators)
+
+    @staticmethod
+    def _remove_pivot_segment""", """        super().init_sampling(reference_continuum, ground_truth_annotators)
+        if ground_truth_annotators is not None:
+            restricted = reference_continuum.copy_flush()
+            for annotator in self._ground_truth_annotators:
+                for unit in reference_continuum.iter_annotator(annotator):
+                    restricted.add(annotator, unit.segment, unit.annotation)
+            self._reference_continuum = restricted
+
+    @staticmethod
+    def _remove_pivot_segment""", "R-C16-3", "the average unit length (pivot separation) is that of another continuum")
+M("C08", "r11/glpk-options-update-keywords", CONT,
+  "CHUNK_SIZE = (10**6) // os.cpu_count()",
+  """CHUNK_SIZE = (10**6) // os.cpu_count()
+try:
+    from cvxopt import glpk as _glpk
+    _glpk.options.update(msg_lev="GLP_MSG_OFF", mip_gap=0.005)
+except ImportError:
+    pass""", "R-C08-3")
